@@ -269,6 +269,7 @@ func init() {
 			"every switch over a closed kernel enum (StatusCode, request Kind, promise/task state) whose default panics lists every constant of the enum (R11) — in particular StatusCode.String and the gRPC code table",
 			"HTTP code = status/100, an intended HTTP code for all 30 constants; each gRPC outcome flag compares the status of its own kind with the constant that denotes the flagged outcome and that the kind's coroutine can produce (R13)",
 			"for each request kind both front ends submit it, populate the same fields of the kernel request, and a coroutine is registered for it; every HTTP handler path writes exactly one reply (R10)",
+			"every error of a binding / validation / decode in the front ends is examined and, when it is not nil, the kernel submission is unreachable; the API helper renders an error entry as a server error, an unsuccessful status as a request error and otherwise hands the completion on (R7 api-process); an object filed under a string key (root / leaf of a claim) is built from the members named after the key; the requested completion state is Resolved / Rejected / Canceled at every site",
 		},
 		[]string{"wire encoding by gin/grpc/protobuf", "correspondence of the *values* each protocol puts into a field beyond the field set and the identically named source (name agreement R16: a field fed, on any path, from a differently named field of the client message is reported; a request field that holds what the client sent is not assigned again (client-fields); defaults computed from constants for fields the client did not send are not compared between the protocols)"}).
 		rule("R13-completion-state", ruleCompletionStateValidated).
@@ -351,6 +352,7 @@ func init() {
 			"a loop over the selected records (or over the hand-offs made for them) is never left early (no break / goto / labelled branch), and a sweep returns before or between its loops only after a failed read or an empty selection",
 		},
 		[]string{"the number of cycles (no bound is computed)", "fairness between the five coroutines", "transient-failure sequences"}).
+		rule("R10-enqueue-non-blocking", ruleEnqueueNonBlocking).
 		rule("R17-tick", ruleTick).
 		rule("R17-background", ruleBackground(true)).
 		rule("sweep-answers", ruleSweepAnswers).
@@ -369,8 +371,10 @@ func init() {
 			"for each of 33 owners of a one-shot obligation (API/AIO enqueue with their wrappers, Dispatch, the kernel's SQE and CQE loops, the AddOnRequest wrapper, every subsystem/plugin Enqueue, the store/router/echo/sender/plugin workers, the Done closure, the simulated AIO flush, the front-end reply channel) every control-flow path discharges the obligation exactly once (R10)",
 			"Loop returns only under Done(); Done ⇔ api done ∧ queue empty ∧ scheduler empty; background coroutines are not added once the API is done; serve stops API then AIO only after Loop returned (R17)",
 			"the shutdown flag must be set and tested-then-sent under one lock (R14: finding F14)",
+			"every subsystem / plugin Enqueue is non-blocking (each send is an arm of a select with a default arm): the kernel goroutine, sole consumer of the completion queue, never waits on a subsystem queue",
 		},
 		[]string{"arrival patterns, queue pressure, goroutine scheduling", "gocoro's scheduler (read, not analysed)"}).
+		rule("R10-enqueue-non-blocking", ruleEnqueueNonBlocking).
 		rule("R10-exactly-once", ruleExactlyOnce).
 		rule("R17-tick", ruleTick).
 		rule("R17-serve-shutdown", ruleServeShutdown).
@@ -452,10 +456,11 @@ func init() {
 			"TagSource decides exactly: tag absent ⇒ no match; valid JSON decoding strictly into a receiver with a type ⇒ physical; other JSON ⇒ no match; anything else ⇒ logical string (R7 by path enumeration); first matching source wins; coerce accepts a physical receiver or a string",
 			"sender: logical name ⇒ configured target, else by URL scheme (http/https ⇒ http transport with that URL, poll://group/id ⇒ poll transport), physical as given; unresolvable receiver or missing plugin ⇒ error completion; plugin chosen by receiver type; message = (type, receiver data, body)",
 			"body keys type/task/href{claim,complete,heartbeat} or type/promise from this submission; hrefs formatted from exactly the task id and counter; the task created for a routed promise carries the router's receiver (R9/objects)",
-			"both decoders reject null instead of dereferencing nil (R12); every decode of receiver data, routing tags, request bodies and stored columns targets storage that is fresh for that message (zero-valued local of the invocation or a target handed in by the caller), so nothing of the previous message's address or headers is merged into this one (decode-fresh)",
+			"both decoders reject null instead of dereferencing nil (R12); every decode of receiver data, routing tags, request bodies and stored columns targets storage that is fresh for that message (zero-valued local of the invocation or a target handed in by the caller), so nothing of the previous message's address or headers is merged into this one (decode-fresh); the http receiver built from a routing-tag URL carries that URL verbatim (the String() of url.Parse's own result)",
 		},
 		[]string{"the plugins' network behaviour", "url.Parse's treatment of odd URLs"}).
 		rule("R7-decision-tables", ruleTables(tblTagSource, tblSchemeToRecv)).
+		rule("sender-scheme-url", ruleSchemeURLVerbatim).
 		rule("router-first-match", ruleRouterFirstMatch).
 		rule("sender-resolution", ruleSenderResolution).
 		rule("sender-poll-address", rulePollAddress).
@@ -477,11 +482,12 @@ func init() {
 			"name agreement (R16): in both front ends and in the record decoders every field of a request / API object / protobuf message is fed from the identically named station (or a listed alias)",
 			"command literals copy request fields unaltered (R9); responses and dispatched messages carry the stored record unaltered (objects)",
 			"no normalising or escaping function lies on an id or payload path (allowed sites are listed with their reason); html/template is not used; the wildcard-route id loses exactly its leading slash; derived ids embed the client id raw; time-valued fields are int64 at every station (R15/R16)",
-			"a client datum is replaced by an empty map / slice only under a nil / empty test of that same datum (zero-defaults); every decode targets storage fresh for the message (decode-fresh); no column carries a case-folding / trimming collation",
+			"a client datum is replaced by an empty map / slice only under a nil / empty test of that same datum (zero-defaults); every decode targets storage fresh for the message (decode-fresh); no package-level map is handed out by a decoder / converter (no-shared-maps); no column carries a case-folding / trimming collation",
 		},
 		[]string{"byte-level behaviour of drivers and codecs (database/sql, encoding/json base64, protobuf)", "LIKE/JSON-path semantics of search (finding F15)"}).
 		rule("R16-name-agreement", ruleNameAgreement).
 		rule("R16-decode-fresh", ruleDecodeFresh).
+		rule("R16-no-shared-maps", ruleNoSharedMaps).
 		rule("R3-errors-examined", ruleErrorsExamined(pkgHttp, pkgGrpc, pkgSubApi, pkgTApi, pkgPromise, pkgSchedule, pkgTask, pkgUtil)).
 		rule("R16-zero-defaults", ruleDefaultsOnlyForZero).
 		rule("R16-client-fields", ruleClientFieldsNotRewritten).
